@@ -28,6 +28,7 @@ Ltac np :=
       exact (proj1 H c (index_of_citem_In _ _ _ E))
     | H : GoodM ?P ?x |- ~ ?P (m_root ?x) => exact (proj1 H)
     | H : OutO ?P (Some ?c) |- ~ ?P ?c => exact (H c eq_refl)
+    | H : forall a, Some (Some ?c) = Some a -> OutO ?P a |- ~ ?P ?c => exact (H _ eq_refl c eq_refl)
     | H : OutC ?P (CElem ?c :: _) |- ~ ?P ?c => apply H; left; reflexivity
     | H : OutI ?P (?c :: _) |- ~ ?P ?c => apply H; left; reflexivity
     | H : OutP ?P ((?k, ?c) :: _) |- ~ ?P ?c => apply (H k); left; reflexivity
@@ -44,6 +45,9 @@ Ltac outl :=
     | H : OutP ?P (_ :: ?l) |- OutP ?P ?l => intros ?k ? ?Hc; apply (H k); right; exact Hc
     | H : GoodN ?P ?b ?n |- OutC ?P (n_content ?n) => exact (GoodN_OutC P b n H)
     | H : GoodM ?P ?x, E : assoc_get _ (m_origins ?x) = Some ?l |- OutI ?P ?l => exact (GoodM_origins P x _ l H E)
+    | |- OutI _ [] => apply OutI_nil
+    | |- OutI _ (if ?c then _ else _) => destruct c; outl
+    | |- OutI _ (_ :: _) => apply OutI_cons_intro; [np | outl]
     end ].
 
 (* goal: forall c, In (CElem c) L -> ~ P c *)
@@ -66,14 +70,20 @@ Ltac in_out :=
 
 (* goal: GoodN n' *)
 Ltac good :=
-  unfold GoodN; cbn [n_content n_parent set_content set_parent set_attrs set_files set_comment new_node];
-  split; [ in_out
-         | split; [ let p := fresh "p" in let E := fresh "Ep" in intros p E;
-                    first [ discriminate E
-                          | (injection E as E; first [subst; np | rewrite <- E; np])
-                          | match goal with H : GoodN _ _ ?n |- _ => exact (proj1 (proj2 H) p E) end ]
-                  | first [ discriminate
-                          | match goal with H : GoodN _ _ ?n |- _ => exact (proj2 (proj2 H)) end ] ] ].
+  repeat match goal with
+         | |- GoodN _ _ (if ?c then _ else _) => destruct c
+         | |- GoodN _ _ (match ?x with _ => _ end) => destruct x eqn:?
+         end;
+  first
+  [ assumption
+  | unfold GoodN; cbn [n_content n_parent set_content set_parent set_attrs set_files set_comment new_node];
+    split; [ in_out
+           | split; [ let p := fresh "p" in let E := fresh "Ep" in intros p E;
+                      first [ discriminate E
+                            | (injection E as E; first [subst; np | rewrite <- E; np])
+                            | match goal with H : GoodN _ _ ?n |- _ => exact (proj1 (proj2 H) p E) end ]
+                    | first [ discriminate
+                            | match goal with H : GoodN _ _ ?n |- _ => exact (proj2 (proj2 H)) end ] ] ] ].
 Ltac goodf := let n := fresh "n" in let Hn := fresh "Hn" in intros n Hn; good.
 
 (* goals about the values of index maps *)
@@ -110,6 +120,8 @@ Create HintDb irp discriminated.
 #[export] Hint Extern 1 (irpq _ _ _ (ref_texts _ _ _)) => (eapply irpq_ref_texts; outl) : irp.
 #[export] Hint Extern 1 (irpq _ _ _ (parent_of ?n)) =>
   (match goal with H : GoodN _ _ n |- _ => eapply irpq_parent_of; exact H end) : irp.
+#[export] Hint Extern 1 (irpq _ _ _ (wtry (parent_of ?n))) =>
+  (match goal with H : GoodN _ _ n |- _ => eapply irpq_try; eapply irpq_parent_of; exact H end) : irp.
 #[export] Hint Extern 1 (irpq _ _ _ (first_named _ _)) => (eapply irpq_first_named; outl) : irp.
 #[export] Hint Extern 1 (irpq _ _ _ (get_sub_element _ _)) => (eapply irpq_get_sub_element; np) : irp.
 #[export] Hint Extern 1 (irpq _ _ _ (first_named_item _ _ _ _)) => (eapply irpq_first_named_item; outl) : irp.
@@ -145,6 +157,10 @@ Ltac irp_step :=
     first [ apply irpq_get_model; [assumption | intros ? ?] | apply irpq_get_model_any; intros ? ]
   | |- irpq _ _ _ (wbind wget _) => apply irpq_wget; intros ?
   | |- irpq _ _ _ (wbind (alloc _) _) => eapply irpq_bind; [apply irpq_alloc; good | cbv beta; intros ? ?]
+  | |- irpq ?P _ _ (wbind (?F ?l) _) =>
+    first [ (is_fix F; eapply (irpq_bind _ _ (OutI P)); [ | intros ? ? ])
+          | eapply irpq_bind; [ solve [eauto with irp nocore] | cbv beta; intros ? ? ]
+          | eapply (irpq_bind _ _ (fun _ => True)); [ | intros ? _ ] ]
   | |- irpq _ _ _ (wbind _ _) =>
     first [ eapply irpq_bind; [ solve [eauto with irp nocore] | cbv beta; intros ? ? ]
           | eapply (irpq_bind _ _ (fun _ => True)); [ | intros ? _ ] ]
@@ -248,5 +264,53 @@ Lemma irpq_e_move h mv : ~ P h -> ~ P mv -> irpq NPq (e_move_element_here T tab_
 Proof. intros Hh Hmv. unfold e_move_element_here. irp_tac. Qed.
 Lemma irpq_e_move_at h mv pos : ~ P h -> ~ P mv -> irpq NPq (e_move_element_here_at T tab_en check_fn LATEST h mv pos).
 Proof. intros Hh Hmv. unfold e_move_element_here_at. irp_tac. Qed.
+
+(* ---------- file membership ---------- *)
+Lemma irp_atfr fuel : forall e f, ~ P e -> irp (add_to_file_restricted T fuel e f).
+Proof. induction fuel as [|fl IH]; intros e f He; cbn [add_to_file_restricted]; irp_tac. Qed.
+Hint Resolve irp_atfr : irp.
+Lemma irp_add_to_file e f : ~ P e -> irp (e_add_to_file T e f).
+Proof. intros He. unfold e_add_to_file. irp_tac. Qed.
+Lemma irp_remove_from_file e f : ~ P e -> irp (e_remove_from_file T e f).
+Proof. intros He. unfold e_remove_from_file. irp_tac. Qed.
+Hint Resolve irp_remove_from_file : irp.
+Lemma irp_set_file_membership e fm : ~ P e -> irp (set_file_membership T e fm).
+Proof. intros He. unfold set_file_membership. irp_tac. Qed.
+Hint Resolve irp_set_file_membership : irp.
+Lemma irp_remove_file m f : m <> b -> irp (m_remove_file T m f).
+Proof. intros Hm. unfold m_remove_file. irp_tac. Qed.
+
+(* ---------- edits in place ---------- *)
+Lemma irpq_e_create_sub h name : ~ P h -> irpq NPq (e_create_sub_element T LATEST h name).
+Proof. intros Hh. unfold e_create_sub_element. irp_tac. Qed.
+Lemma irpq_e_create_sub_at h name pos : ~ P h -> irpq NPq (e_create_sub_element_at T LATEST h name pos).
+Proof. intros Hh. unfold e_create_sub_element_at. irp_tac. Qed.
+Lemma irpq_e_create_named h name item : ~ P h -> irpq NPq (e_create_named_sub_element T check_fn LATEST h name item).
+Proof. intros Hh. unfold e_create_named_sub_element. irp_tac. Qed.
+Lemma irpq_e_create_named_at h name item pos : ~ P h -> irpq NPq (e_create_named_sub_element_at T check_fn LATEST h name item pos).
+Proof. intros Hh. unfold e_create_named_sub_element_at. irp_tac. Qed.
+Lemma irpq_e_get_or_create h name : ~ P h -> irpq NPq (e_get_or_create_sub_element T LATEST h name).
+Proof. intros Hh. unfold e_get_or_create_sub_element. irp_tac. Qed.
+Lemma irpq_e_get_or_create_named h name item : ~ P h -> irpq NPq (e_get_or_create_named_sub_element T check_fn LATEST h name item).
+Proof. intros Hh. unfold e_get_or_create_named_sub_element. irp_tac. Qed.
+Lemma irp_e_set_cdata h v : ~ P h -> irp (e_set_character_data T tab_en check_fn LATEST h v).
+Proof. intros Hh. unfold e_set_character_data. irp_tac. Qed.
+Lemma irp_e_remove_cdata h : ~ P h -> irp (e_remove_character_data T h).
+Proof. intros Hh. unfold e_remove_character_data. irp_tac. Qed.
+Lemma irp_e_insert_citem h t p : ~ P h -> irp (e_insert_character_content_item T h t p).
+Proof. intros Hh. unfold e_insert_character_content_item. irp_tac. Qed.
+Lemma irp_e_remove_citem h p : ~ P h -> irp (e_remove_character_content_item T h p).
+Proof. intros Hh. unfold e_remove_character_content_item. irp_tac. Qed.
+Lemma irp_raw_set_attribute h a v version : ~ P h -> irp (raw_set_attribute T check_fn h a v version).
+Proof. intros Hh. unfold raw_set_attribute. irp_tac. Qed.
+Hint Resolve irp_raw_set_attribute : irp.
+Lemma irp_e_set_attribute h a v : ~ P h -> irp (e_set_attribute T check_fn LATEST h a v).
+Proof. intros Hh. unfold e_set_attribute. irp_tac. Qed.
+Lemma irp_e_remove_attribute h a : ~ P h -> irp (e_remove_attribute T h a).
+Proof. intros Hh. unfold e_remove_attribute. irp_tac. Qed.
+Lemma irp_e_set_comment h c : ~ P h -> irp (e_set_comment h c).
+Proof. intros Hh. unfold e_set_comment. irp_tac. Qed.
+Lemma irp_e_set_reference_target h target : ~ P h -> irp (e_set_reference_target T tab_el tab_en check_fn LATEST h target).
+Proof. intros Hh. unfold e_set_reference_target. irp_tac. Qed.
 
 End Ops.
